@@ -316,3 +316,36 @@ def concrete_playback(scratch, package, harness, timeout=1800, target_slot='main
     if not blocks:
         return None
     return '\n'.join(blocks)
+
+
+def native_playback(scratch, package, harness, test_code, timeout=1200, target_slot='main'):
+    """Replay Kani's concrete counterexample natively against the real code (`cargo kani playback`): the generated unit
+    tests are appended to the harness module in the scratch tree and executed as ordinary Rust tests."""
+    if not test_code:
+        return None
+    hdir = os.path.join(scratch.dir, 'verif_kani')
+    target = None
+    for f in sorted(os.listdir(hdir)):
+        if re.search(r'\bfn\s+%s\s*\(' % re.escape(harness), open(os.path.join(hdir, f)).read()):
+            target = os.path.join(hdir, f)
+            break
+    if target is None:
+        return None
+    names = re.findall(r'fn (kani_concrete_playback_\w+)\(', test_code)
+    with open(target, 'a') as fh:
+        fh.write('\n// ---- concrete playback tests generated by Kani for the failed harness ----\n' + test_code + '\n')
+    env = dict(os.environ)
+    env['CARGO_NET_OFFLINE'] = 'true'
+    env['CARGO_TARGET_DIR'] = os.path.join(CACHE, 'kani-target-' + target_slot)
+    cmd = ['cargo', 'kani', 'playback', '-Z', 'concrete-playback', '-p', package, '--', 'kani_concrete_playback_' + harness]
+    try:
+        p = subprocess.run(cmd, cwd=scratch.repo, env=env, capture_output=True, text=True, timeout=timeout)
+    except subprocess.TimeoutExpired:
+        return {'ran': False, 'reason': 'timeout'}
+    out = p.stdout + p.stderr
+    per_test = {}
+    for m in re.finditer(r'test \S*?(kani_concrete_playback_\w+) \.\.\. (ok|FAILED)', out):
+        per_test[m.group(1)] = m.group(2)
+    return {'ran': bool(per_test), 'cmd': ' '.join(cmd), 'tests': per_test,
+            'some_test_failed_natively': any(v == 'FAILED' for v in per_test.values()),
+            'output_tail': out[-1500:]}
